@@ -20,7 +20,11 @@ class RichSwnmEditor:
         unique_switches_to_add = self._build_switches_set(switches)
         allocable_ids = self._generate_allocable_ids(swnm)
         new_switches = [x for x in swnm.switches]
-        for i, switch in enumerate(unique_switches_to_add):
+        # place the switches that already carry an ID first, so that an ID they claim is
+        # never handed out to a switch without one
+        for i, switch in enumerate(
+            sorted(unique_switches_to_add, key=lambda x: x.index is None)
+        ):
             if switch.index is not None:
                 if switch not in new_switches:
                     # the section is a list of switches, not an array addressed by switch ID
